@@ -1037,7 +1037,17 @@ def _url(tr, servers, path, drop=()):
     return f"http://localhost:{servers.http_port(drop)}{path}"
 
 
-def do_fetch(world, servers, tr, var, src, dst, want_refs: dict, depth=None, fetch_all=False, raw_wants=None):
+def _proto_kw(tr, var):
+    """`protocol_version=` argument of the dulwich client call (None = not passed)."""
+    if tr == "cgit-sub" and var.get("proto") == 2:
+        return {"protocol_version": 2}
+    if var.get("proto_arg") is not None and tr != "local":
+        return {"protocol_version": var["proto_arg"]}
+    return {}
+
+
+def do_fetch(world, servers, tr, var, src, dst, want_refs: dict, depth=None, fetch_all=False, raw_wants=None,
+             ref_prefix=None):
     """One real fetch of `want_refs` ({refname: id}) from the repository at `src` into the one at `dst`.
     Returns {"ok": bool, "err": str|None, "wire": set of hex shas | None, "deltas": n}; on success the
     fetched refs are written into dst (mirror style) — by C git itself when it is the client."""
@@ -1094,11 +1104,11 @@ def do_fetch(world, servers, tr, var, src, dst, want_refs: dict, depth=None, fet
         client.fetch_pack = fetch_pack
     r = Repo(dst)
     try:
-        kw = {}
+        kw = dict(_proto_kw(tr, var))
         if depth:
             kw["depth"] = depth
-        if tr == "cgit-sub" and var.get("proto") == 2:
-            kw["protocol_version"] = 2
+        if ref_prefix:
+            kw["ref_prefix"] = list(ref_prefix)
         with _git_protocol_env(var.get("proto", 0) if tr == "cgit-sub" else 0):
             try:
                 if fetch_all:
@@ -1133,7 +1143,7 @@ def do_fetch(world, servers, tr, var, src, dst, want_refs: dict, depth=None, fet
             client.close()
 
 
-def do_clone(world, servers, tr, var, src, depth=None):
+def do_clone(world, servers, tr, var, src, depth=None, ref_prefix=None):
     """Real clone of `src` into a fresh directory; returns (result dict, path)."""
     out = {"ok": False, "err": None, "wire": None, "deltas": 0}
     servers.sent_log.clear()
@@ -1152,11 +1162,11 @@ def do_clone(world, servers, tr, var, src, depth=None):
             out["wire"] = {s for pack in servers.sent_log for s in pack}
         return out, dst
     client = _dul_client(tr, var, servers)
-    kw = {}
+    kw = dict(_proto_kw(tr, var))
     if depth:
         kw["depth"] = depth
-    if tr == "cgit-sub" and var.get("proto") == 2:
-        kw["protocol_version"] = 2
+    if ref_prefix:
+        kw["ref_prefix"] = list(ref_prefix)
     with _git_protocol_env(var.get("proto", 0) if tr == "cgit-sub" else 0):
         try:
             r = client.clone(src, dst, mkdir=True, bare=True, checkout=False, **kw)
@@ -1288,6 +1298,8 @@ def gen_variant(rng, tr, op):
         var["server_drop"] = sorted(drop)
     if tr in ("tcp", "cgit-sub") and op in ("fetch", "fetchall") and rng.random() < 0.15:
         var["slow_client"] = True
+    if tr in ("tcp", "http"):
+        var["proto_arg"] = rng.choice([None, None, 0, 1, 2])     # the dulwich servers answer v0 whatever is asked
     if tr == "cgit-sub":
         var["proto"] = rng.choice([0, 0, 2])
         var["thin"] = rng.random() < 0.75
@@ -1325,7 +1337,8 @@ def min_depths(g: Graph, tips):
 
 
 def check_receiver(ctx, stream, world, case, path, before, shallow_before, transferred, allowed, res, depth=None,
-                   fsck=False, push=False, sender_shallow=False, fetch_all=False, depth_tips=None, proto2=False):
+                   fsck=False, push=False, sender_shallow=False, fetch_all=False, depth_tips=None, proto2=False,
+                   refs_before=None):
     """The property's own words after a successful transfer into the repository at `path`:
       * it holds every object reachable from the transferred refs and from all its refs (through tag chains,
         gitlinks excluded), cut only at its recorded shallow commits; a depth-limited fetch may cut no earlier
@@ -1343,11 +1356,15 @@ def check_receiver(ctx, stream, world, case, path, before, shallow_before, trans
             (after.add(world.rev[s]) if s in world.rev else foreign.add(s))
         shallow_after = {world.rev[s] for s in r.get_shallow() if s in world.rev}
         ref_ids = set()
-        for n, s in r.get_refs().items():
+        refs_after = dict(r.get_refs())
+        for n, s in refs_after.items():
             if s in world.rev:
                 ref_ids.add(world.rev[s])
             elif s != ZERO:
                 ctx.oracle_fail(stream, case, f"receiver ref {n!r} names an object unknown to the history", "ref-foreign")
+        # "the refs that were transferred" = every ref this operation created or changed in the receiver
+        changed = {} if refs_before is None else {n: world.rev[s] for n, s in refs_after.items()
+                                                   if refs_before.get(n) != s and s in world.rev}
         if foreign:
             ctx.oracle_fail(stream, case, f"receiver holds {len(foreign)} object(s) that exist nowhere in the sender's "
                                           f"history, e.g. {sorted(foreign)[0].decode()}", "foreign-object")
@@ -1372,9 +1389,12 @@ def check_receiver(ctx, stream, world, case, path, before, shallow_before, trans
                 if unrecorded and missing <= g.closure([p for c in unrecorded for p in g.objs[c][2]], shallow=shallow_after):
                     miss_cls = "depth-fetch-boundary-not-recorded"
             from_transferred = {i for i in g.closure(transferred, shallow=shallow_after) if i in g.objs} - after
+            broken = sorted(n.decode("utf-8", "replace") for n, i in changed.items()
+                            if {x for x in g.closure([i], shallow=shallow_after) if x in g.objs} - after)
             ctx.oracle_fail(stream, case,
                             f"receiver lacks {len(missing)} object(s) reachable from its refs after the transfer "
-                            f"(ids {show_ids(sorted(missing)[:8])}; {len(from_transferred)} of them from the transferred refs)",
+                            f"(ids {show_ids(sorted(missing)[:8])}; {len(from_transferred)} of them from the refs asked for; "
+                            f"refs created/updated by the operation whose closure is incomplete: {broken[:6]})",
                             miss_cls)
         new_shallow = shallow_after - shallow_before
         if new_shallow:
@@ -1556,6 +1576,19 @@ def tag_follow_ids(g, srefs, base):
     return {i for i in g.closure(t) if i in g.objs}
 
 
+def refs_in_prefix(srefs, prefixes):
+    """The sender refs a `ref_prefix` selects (refs.filter_ref_prefix: plain string prefixes)."""
+    if not prefixes:
+        return dict(srefs)
+    return {n: v for n, v in srefs.items() if any(n.startswith(p) for p in prefixes)}
+
+
+def repo_refs(path):
+    from dulwich.repo import Repo
+    with contextlib.closing(Repo(path)) as r:
+        return dict(r.get_refs())
+
+
 def run_scenario(ctx, servers, sc, ops, stream="e2e"):
     """Materialise the scenario on disk and perform `ops` (list of dicts) in sequence, checking after each."""
     g = sc["g"]
@@ -1593,11 +1626,19 @@ def run_scenario(ctx, servers, sc, ops, stream="e2e"):
             recv_ids = known
             continue
         if kind in ("fetch", "fetchall"):
-            want_refs = {n: sc["srefs"][n] for n in (op["refs"] if kind == "fetch" else sc["srefs"])}
-            res = do_fetch(world, servers, tr, var, src, dst, want_refs, depth=op.get("depth"), fetch_all=(kind == "fetchall"))
+            prefix = [x.encode() if isinstance(x, str) else x for x in op.get("ref_prefix", ())] if kind == "fetchall" else []
+            want_refs = {n: sc["srefs"][n] for n in op["refs"]} if kind == "fetch" else refs_in_prefix(sc["srefs"], prefix)
+            refs_before = repo_refs(dst)
+            res = do_fetch(world, servers, tr, var, src, dst, want_refs, depth=op.get("depth"), fetch_all=(kind == "fetchall"),
+                           ref_prefix=prefix)
             wants = set(want_refs.values())
             wclos = {i for i in g.closure(wants) if i in g.objs}
             allowed = set(wclos)
+            if prefix and tr == "local":
+                # LocalGitClient does not implement the ref_prefix hint: everything advertised may travel
+                allowed = {i for i in g.closure(sc["srefs"].values()) if i in g.objs}
+            if prefix:
+                tag += ":prefix"
             if var.get("include_tag") and b"include-tag" not in var.get("server_drop", ()) or tr.startswith("git-") and var.get("include_tag"):
                 base = wclos | recv_ids
                 if tr.startswith("git-"):
@@ -1615,21 +1656,27 @@ def run_scenario(ctx, servers, sc, ops, stream="e2e"):
                 continue
             out = check_receiver_safe(ctx, stream, world, case, dst, recv_ids, shallow, wants, allowed, res,
                                  depth=op.get("depth"), fsck=do_fsck, fetch_all=(kind == "fetchall"),
-                                 depth_tips=depth_tips, proto2=(tr == "cgit-sub" and var.get("proto") == 2))
+                                 depth_tips=depth_tips, proto2=(tr == "cgit-sub" and var.get("proto") == 2),
+                                 refs_before=refs_before)
             recv_ids, shallow = out["after"], out["shallow"]
             if res.get("deltas"):
                 ctx.count(stream + ".thin-or-delta", (tag, len(out["new"])), True, tr)
         elif kind == "clone":
-            res, cpath = do_clone(world, servers, tr, var, src, depth=op.get("depth"))
-            ctx.count(stream, (tuple(g.tokens()), tuple(sorted(sc["srefs"].items())), tag, var_key(var)), res["ok"],
+            prefix = [x.encode() if isinstance(x, str) else x for x in op.get("ref_prefix", ())]
+            res, cpath = do_clone(world, servers, tr, var, src, depth=op.get("depth"), ref_prefix=prefix)
+            if prefix:
+                tag += ":prefix"
+            ctx.count(stream, (tuple(g.tokens()), tuple(sorted(sc["srefs"].items())), tag, var_key(var), tuple(prefix)), res["ok"],
                       tag + (":ok" if res["ok"] else ":fail"))
             if not res["ok"]:
                 _failed(ctx, stream, case, tr, var, op, res, "clone succeeds", servers)
                 continue
-            roots = set(sc["srefs"].values())
-            allowed = {i for i in g.closure(roots) if i in g.objs}
+            roots = set(refs_in_prefix(sc["srefs"], prefix).values())
+            allowed = {i for i in g.closure(roots if (prefix and tr != "local") else sc["srefs"].values()) if i in g.objs}
+            if var.get("include_tag") and b"include-tag" not in var.get("server_drop", ()):
+                allowed |= tag_follow_ids(g, sc["srefs"], set(allowed))      # tags followed at the client's request
             check_receiver_safe(ctx, stream, world, case, cpath, set(), set(), roots, allowed, res, depth=op.get("depth"),
-                           fsck=do_fsck)
+                           fsck=do_fsck, refs_before={})
         else:   # push: the roles are swapped — `src` sends to `dst`
             push_refs = {n: sc["srefs"][n] for n in op["refs"]}
             psrc, sender_shallow = src, False
@@ -1648,6 +1695,7 @@ def run_scenario(ctx, servers, sc, ops, stream="e2e"):
                 if not push_refs:
                     continue
                 tag += ":shallow-sender" if sender_shallow else ""
+            refs_before = repo_refs(dst)
             res = do_push(world, servers, tr, var, psrc, dst, push_refs)
             roots = set(push_refs.values())
             allowed = {i for i in g.closure(roots) if i in g.objs}
@@ -1658,7 +1706,7 @@ def run_scenario(ctx, servers, sc, ops, stream="e2e"):
                 recv_ids, shallow = repo_state(world, dst)
                 continue
             out = check_receiver_safe(ctx, stream, world, case, dst, recv_ids, shallow, roots, allowed, res, fsck=do_fsck,
-                                 push=True, sender_shallow=sender_shallow)
+                                 push=True, sender_shallow=sender_shallow, refs_before=refs_before)
             recv_ids, shallow = out["after"], out["shallow"]
 
 
@@ -1698,6 +1746,12 @@ def scenario_from_json(d):
             "recv_ids": set(d["recv_ids"]), "state": d.get("state", "?"), "repack": d.get("repack", False)}
 
 
+def gen_ref_prefix(rng, names):
+    """A non-empty list of ref prefixes: whole namespaces, a partial branch name, exact ref names."""
+    pool = [b"refs/heads/", b"refs/tags/", b"refs/heads/b", b"refs/tags/t", b"refs/heads/b0"] + list(names)
+    return [p.decode() for p in dict.fromkeys(rng.sample(pool, rng.choice([1, 1, 2, 3])))]
+
+
 def gen_ops(rng, sc, transports):
     ops = []
     names = sorted(sc["srefs"])
@@ -1717,6 +1771,8 @@ def gen_ops(rng, sc, transports):
         if kind in ("fetch", "push"):
             k = rng.choice([1, 1, 2, len(names)])
             op["refs"] = sorted(rng.sample(names, min(k, len(names))))
+        if kind in ("fetchall", "clone") and tr not in GIT_TRANSPORTS and rng.random() < 0.45:
+            op["ref_prefix"] = gen_ref_prefix(rng, names)
         if kind == "push" and tr not in GIT_TRANSPORTS and rng.random() < 0.15:
             op["shallow_sender"] = rng.choice([1, 2])
         if kind in ("fetch", "clone", "fetchall") and rng.random() < 0.2:
